@@ -116,7 +116,7 @@ def random_patches(
 
     """
     # Fix seed for reproducibility
-    np.random.seed(42)
+    rng = np.random.RandomState(42)
 
     # Determine indices of mask
     larger_mask = np.zeros((mask.shape[0] + width, mask.shape[1] + width), dtype=bool)
@@ -140,7 +140,7 @@ def random_patches(
     # Randomly select patches
     num_eligible_points = len(restricted_indices[0])
     random_ids = np.unique(
-        (np.random.rand(num_patches) * num_eligible_points).astype(int)
+        (rng.rand(num_patches) * num_eligible_points).astype(int)
     )
     patch_indices = np.transpose(
         tuple([restricted_indices[i][random_ids] for i in range(len(indices))])
